@@ -59,6 +59,7 @@ func vxTraceChan(ch interface{})
 func vxTraceMutex(p interface{})
 func vxTraceMark(s string)
 func vxBarrier(k int)
+func vxTempPrefix() string
 func vxFieldChan(obj interface{}, idx int) interface{}
 func vxChanCap(ch interface{}) int
 func vxRaceLog(on bool)
